@@ -56,6 +56,11 @@ class Report:
             h["stopped_after_counterexamples"] = True
         if not ex.exhausted:
             self.inconclusive.append("%s: path tree not exhausted within the time budget (%d paths explored)" % (name, ex.paths))
+        nv = sum(1 for r in ex.results if r.get("validated_against_impl") is True)
+        nbad = sum(1 for r in ex.results if r.get("validated_against_impl") is False)
+        self.replays_validated += nv
+        if nbad:
+            self.inconclusive.append("%s: %d sampled path(s) whose concrete instance behaves differently on the real code (engine/shim mismatch)" % (name, nbad))
         nun = sum(1 for r in ex.results if r["status"] == "unsupported")
         if nun:
             why = next(r.get("why") for r in ex.results if r["status"] == "unsupported")
